@@ -322,7 +322,8 @@ pub fn id_from_var(
                     },
                 )
             } else {
-                panic!("cannot have empty identifier")
+                let msg = "Cannot define nothing: the tuple of identifiers is empty";
+                return Err(vec![TypeErr::new(var.pos, msg)]);
             };
 
             constr.add(
